@@ -1,11 +1,12 @@
 """C19 — transition notifications bracket every boundary crossing and stay balanced."""
 from . import callscommon
 PROP = "C19"
-COQ_FILES = ["Machine.v", "Calls.v", "Calls_proofs.v"]
+COQ_FILES = ["Machine.v", "Calls.v", "Calls_proofs.v", "ScopeExit.v", "ScopeExit_proofs.v"]
 DRIVERS = [
     dict(name="calls_verif32", src="calls.cpp", defines=["CALLS_VERIF32"], ops=["calls32"]),
     dict(name="calls_wide", src="calls.cpp", defines=["CALLS_WIDE"], ops=["callsw"]),
     dict(name="calls_noop", src="calls.cpp", defines=["CALLS_NOOP"], ops=["callsn"]),
+    dict(name="sx", src="sx.cpp", defines=[], ops=["sx"]),
 ]
 
 
@@ -15,6 +16,15 @@ def gen_cases(tier, rng):
     cases += callscommon.gen("calls32", tier, rng, 3 if q else 4, 1500 if q else 20000, 5 if q else 6)
     cases += callscommon.gen("callsw", tier, rng, 3 if q else 4, 1500 if q else 20000, 5 if q else 6)
     cases += callscommon.gen("callsn", tier, rng, 3, 600 if q else 6000, 5)
+    # scope_exit: every history to depth 4 (quick) / 5 (thorough) over move/release/destroy of the first four objects, random longer
+    import itertools
+    alpha = ["m:0", "m:1", "m:2", "r:0", "r:1", "r:2", "d:0", "d:1", "d:2", "m:3", "d:3", "r:3"]
+    for d in range(0, (4 if q else 5) + 1):
+        for ops in itertools.product(alpha, repeat=d):
+            cases.append("sx " + " ".join(ops))
+    for _ in range(2000 if q else 20000):
+        n = rng.randrange(5, 25)
+        cases.append("sx " + " ".join("%s:%d" % (rng.choice("mmrdd"), rng.randrange(0, 8)) for _ in range(n)))
     return cases
 
 
@@ -31,4 +41,4 @@ RULE = ("register/unregister history over 3 sandbox instances and 8 application 
 TRUSTED = ["model coq/Calls.v hand-written; tied by differential correspondence of whole call trees with hooks and timers enabled"]
 ASSUMPTIONS = ["an abort surfaces as a C++ exception (RLBOX_USE_EXCEPTIONS, the configuration the repository's tests use)",
                "guest frames never catch; the clock value of a timing record is not compared",
-               "scope_exit (rlbox_helpers.hpp) is exercised only through the two call sites; its move constructor is not used by them"]
+               "scope_exit itself is also driven directly (sx.cpp): histories of move construction / release / destruction"]
